@@ -105,8 +105,11 @@ def run(tier, seed):
     # the two listed deviations under random heading ids are named actions of NotesTrace (XrefByTitle, TocOutOfStep): every event that takes one is reported here
     devs = {}
     for ev in trace:
-        if ev.get("e") != "anchors" or not ev["unique"]: continue
+        if ev.get("e") != "anchors": continue
         d = ev["doc"]
+        if d.get("cross") and not d.get("nested") and [c for c in ev["calls"] if c[0] == "fn" and c[1] not in [x[0] for x in ev["entries"]["fn"]]]:
+            devs.setdefault("note-called-from-later-list", []).append(ev)          # (named action NoteCalledFromLaterList)
+        if not ev["unique"]: continue
         if [x for x in ev["xrefs"] if x not in ("tbl", "cap") and x not in ev["hids"]]: devs.setdefault("unique:xref-uses-title-label-but-heading-id-is-random", []).append(ev)
         if d["toc"] and ev["toc"] and any(h["manual"] for h in d["heads"]) and not all(t in ev["hids"] for t in ev["toc"]): devs.setdefault("unique:toc-ids-out-of-step-after-manual-label", []).append(ev)
     nconv = len([e for e in trace if e["e"] == "anchors"])
